@@ -168,3 +168,33 @@ Example C08_nonvacuous :
   monitor 0 [LRegister 0; LWaitBlock; LPostBegin 1 0; LLock 1; LUnlock 1; LPostEnd 1; LEnd true] = false /\
   monitor 0 [LRegister 0; LPostBegin 1 0; LHandler 0 0; LHandler 0 0] = false.
 Proof. vm_compute. repeat split; reflexivity. Qed.
+
+(* ---- tie (a): the poster side of the model IS the current C text of iv_event_post (MT/EventLink.v; Gen/LeafCoreEvent.v is
+   re-translated from /repo/src/iv_event.c by gen/c2gallina.py on every run of this check) ---- *)
+From Coq Require Import ZArith.
+From Ivv Require Import Base.CSem Gen.LeafCoreEvent MT.EventLink.
+
+Theorem C08_post_cs_is_the_code :
+  forall s t e,
+  let queued := mem e (pending s) || mem e (batch s) in
+  post_appends_code queued = Some (negb queued) /\
+  pending (post_cs s t e) = (if negb queued then pending s ++ [e] else pending s) /\
+  (exists p, post_flag_code queued (is_nil (pending s)) = Some p /\
+             get t (thr (post_cs s t e)) = PLocked e p) /\
+  lock (post_cs s t e) = Some t.
+Proof. exact post_cs_is_the_code. Qed.
+Print Assumptions C08_post_cs_is_the_code.
+
+Theorem C08_accepted_wake_is_the_code :
+  forall s t e p,
+  get t (thr s) = PAtKick e p ->
+  match wake_code p (Nat.eqb t (own s)) (raw s) with
+  | Some WNone => step s (LPostEnd t) <> None /\ step s (LKick t) = None /\ step s (LRawW t) = None
+  | Some WTask => (exists s', step s (LPostEnd t) = Some s' /\ local s' = true) /\
+                  step s (LKick t) = None /\ step s (LRawW t) = None
+  | Some WRaw => step s (LRawW t) <> None /\ step s (LKick t) = None /\ step s (LPostEnd t) = None
+  | Some WKick => step s (LKick t) <> None /\ step s (LRawW t) = None /\ step s (LPostEnd t) = None
+  | None => False
+  end.
+Proof. exact accepted_wake_is_the_code. Qed.
+Print Assumptions C08_accepted_wake_is_the_code.
